@@ -48,7 +48,8 @@ catlists = st.one_of(st.lists(st.sampled_from(cats.ALL), max_size=4, unique=True
 
 @st.composite
 def ops(draw):
-    name = draw(st.sampled_from(['dumps', 'dumps', 'dumps', 'export_options', 'tokens', 'unique', 'encodings', 'unique_encodings',
+    name = draw(st.sampled_from(['dumps', 'dumps', 'dumps', 'dumps_variant', 'dumps_variant', 'dumps_variant', 'dumps_variant', 'dumps_variant',
+                                 'dumps_variant', 'export_options', 'tokens', 'unique', 'encodings', 'unique_encodings',
                                  'frequencies', 'metacomments', 'metacomments', 'spine_types', 'mono', 'iter', 'count', 'first', 'spine_ids',
                                  'headers', 'voices', 'graph_file', 'graph_stdout', 'next', 'zip', 'iter_partial']))
     o = {'op': name, 'shape': draw(st.sampled_from(['list', 'set', 'tuple']))}
@@ -67,6 +68,11 @@ def ops(draw):
             o['from_measure'] = draw(st.integers(-1, 5))
         if draw(st.integers(0, 2)) == 0:
             o['to_measure'] = draw(st.integers(-1, 6))
+    elif name == 'dumps_variant':
+        # the previous dumps call of this history again, with ONE option changed (resolved when applied)
+        o['change'] = draw(st.sampled_from(['spine_ids_empty', 'spine_ids_empty', 'spine_ids_empty', 'spine_ids_none', 'spine_ids_none', 'to_plus', 'to_plus',
+                                            'to_minus', 'to_minus', 'to_none', 'from_one',
+                                            'enc_other', 'drop_include', 'exclude_decoration', 'same']))
     elif name in ('tokens', 'unique', 'encodings', 'unique_encodings', 'frequencies'):
         if draw(st.booleans()):
             o['filter'] = draw(catlists)
@@ -241,7 +247,49 @@ class Session:
         self.fresh_state = {}
         self.n = 0
 
+    def resolve(self, o):
+        if o['op'] != 'dumps_variant':
+            if o['op'] == 'dumps':
+                self.last_dumps = dict(o)
+            return o
+        r = dict(getattr(self, 'last_dumps', None) or {'op': 'dumps', 'shape': 'list', 'from_measure': 1})
+        if r.get('from_measure', 0) < 1:
+            r['from_measure'] = 1  # excerpts are where the exporter has most to remember
+        base = dict(r)
+        ch = o['change']
+        if ch == 'spine_ids_empty':
+            r['spine_ids'] = []
+        elif ch == 'spine_ids_none':
+            r.pop('spine_ids', None)
+        elif ch == 'to_plus':
+            r['to_measure'] = r.get('to_measure', 1) + 1
+        elif ch == 'to_minus':
+            r['to_measure'] = max(0, r.get('to_measure', 2) - 1)
+        elif ch == 'to_none':
+            r.pop('to_measure', None)
+        elif ch == 'from_one':
+            r['from_measure'] = 1
+        elif ch == 'enc_other':
+            r['encoding'] = 'ekern' if r.get('encoding') != 'ekern' else 'kern'
+        elif ch == 'drop_include':
+            r.pop('include', None)
+        elif ch == 'exclude_decoration':
+            r['exclude'] = ['DECORATION']
+        r['op'] = 'dumps'
+        base['op'] = 'dumps'
+        self.last_dumps = dict(r)
+        return [r, base]  # the changed call, then the unchanged one again
+
     def step(self, o):
+        o = self.resolve(o)
+        if isinstance(o, list):
+            out = None
+            for sub in o:
+                out = self._step(sub)
+            return out
+        return self._step(o)
+
+    def _step(self, o):
         self.n += 1
         got = apply(self.kdoc, o, self.state)
         fresh_doc, _ = kp.loads(self.text)
@@ -303,7 +351,7 @@ def check_history(case):
 def start_docs(draw):
     from .. import grammar as G
     if draw(st.booleans()):
-        doc = draw(D.measure_documents(D.mprofile(others=True)))
+        doc = draw(D.measure_documents(D.mprofile(others=draw(st.booleans()), sig_changes=draw(st.booleans()))))
     else:
         doc = draw(D.documents(D.profile('full')))
     for _ in range(draw(st.integers(0, 3))):  # reference records and other global comments anywhere
@@ -362,7 +410,7 @@ def in_fresh_process(case):
 @st.composite
 def order_cases(draw):
     doc = draw(start_docs())
-    seq = draw(st.lists(ops().filter(lambda o: o['op'] not in ('export_options',)), min_size=3, max_size=8))
+    seq = draw(st.lists(ops().filter(lambda o: o['op'] not in ('export_options', 'dumps_variant')), min_size=3, max_size=8))
     return {'doc': doc, 'ops': seq}
 
 
@@ -383,8 +431,8 @@ def check_orders(case):
 
 
 def run(ctx):
-    ctx.run_machine(ReadOnlyHistory, check_history, max_examples=100 if ctx.quick else 900, step_count=12, label='read-only')
-    ctx.run_hypothesis(order_cases(), check_orders, max_examples=8 if ctx.quick else 60, salt=5, label='orders')
+    ctx.run_machine(ReadOnlyHistory, check_history, max_examples=60 if ctx.quick else 900, step_count=12, label='read-only')
+    ctx.run_hypothesis(order_cases(), check_orders, max_examples=5 if ctx.quick else 60, salt=5, label='orders')
 
 
 def replay(case):
